@@ -967,7 +967,7 @@ Proof.
   - pose proof (timers_run_G st tidx now G) as G1. destruct (timers_run st tidx now) as [[st' ev] fin]. exact G1.
   - pose proof (program_if_needed_G st tidx now G) as G1. destruct (program_if_needed st tidx now) as [st' c]. exact G1.
   - set (nows := fun c : Z => if c =? 0 then n0 else if c =? 1 then n1 else n2).
-    pose proof (drain_G 16 st nows [] [] G) as G1. destruct (drain 16 st nows [] []) as [[[st' ev] calls] fin]. exact G1.
+    pose proof (drain_G (Z.to_nat n + 1) st nows [] [] G) as G1. destruct (drain (Z.to_nat n + 1) st nows [] []) as [[[st' ev] calls] fin]. exact G1.
   - auto.
 Qed.
 
@@ -1003,3 +1003,65 @@ Theorem run_fixpoint_sys : forall N st tidx now st' ev,
   GInv N st -> timers_run st tidx now = (st', ev, true) ->
   GInv N st' /\ forall t, member st' tidx t -> now < t_target (tm st' t).
 Proof. intros N st tidx now st' ev HN. exact (run_fixpoint_G N HN st tidx now st' ev). Qed.
+
+(* ------------------------------------------------------------------------------------------------ *)
+(* DISPATCH_SOURCE_TYPE_INTERVAL: _dispatch_interval_config_create *)
+Section ICfg.
+Local Ltac Zify.zify_post_hook ::= Z.div_mod_to_equations.
+
+(* DISPATCH_SOURCE_TYPE_INTERVAL: for every interval count and leeway that does not make the library crash the client:
+   interval between one unit and one year, the first target is the first multiple of the interval after now on the
+   uptime clock, target <= deadline <= target + interval (also when interval * leeway wraps in 64 bits, which it does for
+   intervals above 213 days: the leeway is then smaller than asked, never larger than the interval) *)
+Theorem interval_config_spec start interval leeway animation now_up c tg dl itv :
+  in64 interval -> in64 leeway -> 1 <= now_up < MAXV ->
+  interval_config_create start interval leeway animation now_up = Some (c, tg, dl, itv) ->
+  c = 0 /\
+  (start = FOREVER -> tg = INT64_MAX /\ dl = INT64_MAX /\ itv = INT64_MAX) /\
+  (start <> FOREVER ->
+     start = 0 /\ 1 <= interval /\
+     (if animation then NSEC_PER_FRAME else 1000000) <= itv <= FOREVER_NSEC /\
+     tg mod itv = 0 /\ now_up < tg <= now_up + itv /\ 1 <= tg < INT64_MAX /\ tg <= dl <= tg + itv).
+Proof.
+  unfold in64, MAXV, interval_config_create, DISPATCH_TIME_FOREVER, DISPATCH_TIME_NOW, FOREVER, f_dispatch_time_nano2mach,
+    NSEC_PER_FRAME, FOREVER_NSEC, INT64_MAX, UINT64_MAX.
+  intros Hi Hl Hn.
+  destruct (Z.eqb_spec start 18446744073709551615) as [->|Ns].
+  { intros E. inversion E; subst. repeat split; auto; try lia. }
+  destruct (Z.eqb_spec start 0) as [->|N0]; cbn [negb]; [|discriminate].
+  destruct (Z.eqb_spec interval 0) as [I0|I0]; [discriminate|].
+  set (unit := if animation then 16666666 else 1000000).
+  assert (Hu : unit = 16666666 \/ unit = 1000000) by (unfold unit; destruct animation; auto).
+  set (i1 := if interval <=? 31536000000000000 / unit then u64 (interval * unit) else 31536000000000000).
+  assert (Hi1 : unit <= i1 <= 31536000000000000).
+  { unfold i1. destruct (Z.leb_spec interval (31536000000000000 / unit)) as [L|L].
+    - assert (interval * unit <= 31536000000000000) by (destruct Hu as [-> | ->]; lia).
+      assert (unit <= interval * unit) by (destruct Hu as [-> | ->]; lia).
+      rewrite u64_id by lia. lia.
+    - destruct Hu as [-> | ->]; lia. }
+  clearbody i1.
+  set (s1 := u64 (now_up + i1)). assert (Es1 : s1 = now_up + i1) by (unfold s1; rewrite u64_id; lia).
+  set (s2 := u64 (s1 - s1 mod i1)).
+  assert (Es2 : s2 = s1 - s1 mod i1) by (unfold s2; rewrite u64_id; lia).
+  assert (Hs2 : s2 mod i1 = 0 /\ now_up < s2 <= now_up + i1).
+  { rewrite Es2, Es1. split; [|lia].
+    rewrite Zminus_mod, Z.mod_mod, Z.sub_diag by lia. apply Z.mod_0_l. lia. }
+  set (lw := if leeway <=? 1000 then Some (u64 (i1 * leeway) / 1000)
+             else if negb (leeway =? 18446744073709551615) then None
+             else if animation then Some 16666666 else Some (i1 / 2)).
+  assert (Hlw : forall l, lw = Some l -> 0 <= l <= i1).
+  { intros l. unfold lw. destruct (Z.leb_spec leeway 1000) as [L|L].
+    - intros E. inversion E; subst l. pose proof (u64_range (i1 * leeway)).
+      assert (u64 (i1 * leeway) <= i1 * leeway) by (unfold u64; apply Z.mod_le; nia).
+      assert (i1 * leeway <= i1 * 1000) by nia.
+      split; [lia|]. apply Z.div_le_upper_bound; lia.
+    - destruct (negb (leeway =? 18446744073709551615)); [discriminate|].
+      destruct animation; intros E; inversion E; subst l; unfold unit in *; lia. }
+  destruct lw as [l|] eqn:El; [|discriminate].
+  specialize (Hlw l eq_refl).
+  intros E. inversion E; subst c tg dl itv.
+  rewrite (u64_id (s2 + l)) by lia.
+  split; [reflexivity|]. split; [intros X; contradiction|]. intros _.
+  fold unit. repeat split; try lia.
+Qed.
+End ICfg.
